@@ -331,53 +331,44 @@ impl<'a, 'b> SchemerContext<'a, 'b> {
                     acc.insert(Runtype::const_(RuntypeConst::Bool(*v)));
                 }
                 ProperSubtype::Number { allowed, values } => {
+                    let mut members = vec![];
                     for h in values {
                         match h {
                             NumberRepresentationOrFormat::Lit(n) => {
-                                acc.insert(maybe_not(
-                                    Runtype::const_(RuntypeConst::Number(n.clone())),
-                                    !allowed,
-                                ));
+                                members.push(Runtype::const_(RuntypeConst::Number(n.clone())));
                             }
                             NumberRepresentationOrFormat::Format(CustomFormat(first, rest)) => {
-                                acc.insert(maybe_not(
-                                    Runtype::number_with_format(CustomFormat(
-                                        first.clone(),
-                                        rest.clone(),
-                                    )),
-                                    !allowed,
-                                ));
+                                members.push(Runtype::number_with_format(CustomFormat(
+                                    first.clone(),
+                                    rest.clone(),
+                                )));
                             }
                         }
                     }
+                    excluded_or_allowed(&mut acc, Runtype::number(), members, *allowed);
                 }
                 ProperSubtype::String { allowed, values } => {
+                    let mut members = vec![];
                     for h in values {
                         match h {
                             StringLitOrFormat::Format(CustomFormat(first, rest)) => {
-                                acc.insert(maybe_not(
-                                    Runtype::string_with_format(CustomFormat(
-                                        first.clone(),
-                                        rest.clone(),
-                                    )),
-                                    !allowed,
-                                ));
+                                members.push(Runtype::string_with_format(CustomFormat(
+                                    first.clone(),
+                                    rest.clone(),
+                                )));
                             }
                             StringLitOrFormat::Tpl(items) => {
                                 //
                                 match items.0.first() {
-                                    Some(TplLitTypeItem::StringConst(c)) => acc.insert(maybe_not(
-                                        Runtype::single_string_const(c),
-                                        !allowed,
-                                    )),
-                                    _ => acc.insert(maybe_not(
-                                        Runtype::tpl_lit_type(items.clone()),
-                                        !allowed,
-                                    )),
+                                    Some(TplLitTypeItem::StringConst(c)) => {
+                                        members.push(Runtype::single_string_const(c))
+                                    }
+                                    _ => members.push(Runtype::tpl_lit_type(items.clone())),
                                 };
                             }
                         }
                     }
+                    excluded_or_allowed(&mut acc, Runtype::string(), members, *allowed);
                 }
                 ProperSubtype::Mapping(bdd) => {
                     let mapping_ty = self.mapping_to_schema(bdd)?;
@@ -479,6 +470,28 @@ pub fn semtype_to_runtypes(
         vs,
     ))
 }
+// an allowed set is the union of its members; an excluded set is "the base type, but none of
+// them" - a bare negation would also admit every value of every other type
+fn excluded_or_allowed(
+    acc: &mut BTreeSet<Runtype>,
+    base: Runtype,
+    members: Vec<Runtype>,
+    allowed: bool,
+) {
+    if allowed {
+        for m in members {
+            acc.insert(m);
+        }
+        return;
+    }
+    let mut conj = BTreeSet::new();
+    conj.insert(base);
+    for m in members {
+        conj.insert(Runtype::st_not(Box::new(m)));
+    }
+    acc.insert(Runtype::new(RuntypeKind::AllOf(conj)));
+}
+
 fn maybe_not(it: Runtype, add_not: bool) -> Runtype {
     if add_not {
         Runtype::st_not(Box::new(it))
